@@ -58,6 +58,9 @@ func genCase(t *rapid.T) (Case, *env.Env) {
 	if tg.Layout != nil && rapid.IntRange(0, 2).Draw(t, "avc3") == 0 {
 		tg.Layout.VCodec = "avc3.64001e" // the other AVC sample entry name: video all the same
 	}
+	if tg.Layout != nil {
+		tg.Layout.ASCodecs = rapid.IntRange(0, 2).Draw(t, "as-codecs") == 0 // @codecs on the AdaptationSet instead of the Representation
+	}
 	e, err := env.Get(tg)
 	if err != nil {
 		t.Fatalf("HARNESS: %v", err)
